@@ -142,6 +142,10 @@ def run(chk):
             if m >= 2 and kind in ("literal", "computed") and rng.random() < 0.35:
                 mid = float(lit_sum(sts, dts, rng.randint(1, m - 1)))
                 m_info["continued_from"] = repr(mid)
+            elif m >= 1 and kind in ("literal", "computed") and (rng.random() < 0.25 or (forced and i % 2 == 0)):
+                # ... or a first call that takes no step at all (to the start time itself, or to less than one step beyond it)
+                mid = rng.choice([start, start + 0.4 * dt])
+                m_info["continued_from"] = repr(mid) + " (no step)"
             if driver == "tempo":
                 times = quiet(tempo_times, start, end, dt, mid)
                 n = len(times) - 1
